@@ -199,6 +199,67 @@ func localOnly(v ssa.Value) bool {
 			if b, ok := r.Call.Value.(*ssa.Builtin); !ok || (b.Name() != "len" && b.Name() != "cap" && b.Name() != "delete") {
 				return false
 			}
+		case *ssa.MakeClosure:
+			// captured variable: still private if the closure only reads/writes it and is itself only
+			// handed to helpers that call it and do not keep it (lo.*, sort, ParallelizeUntil) or called directly
+			if !closureKeepsPrivate(r, v) {
+				return false
+			}
+		default:
+			return false
+		}
+	}
+	return true
+}
+
+var nonRetaining = []string{"github.com/samber/lo.", "sort.Slice", "sort.SliceStable", "slices.", "k8s.io/client-go/util/workqueue.ParallelizeUntil"}
+
+func closureKeepsPrivate(mc *ssa.MakeClosure, cell ssa.Value) bool {
+	fn, ok := mc.Fn.(*ssa.Function)
+	if !ok {
+		return false
+	}
+	for i, b := range mc.Bindings {
+		if b != cell {
+			continue
+		}
+		fv := fn.FreeVars[i]
+		for _, r := range *fv.Referrers() {
+			switch r := r.(type) {
+			case *ssa.UnOp, *ssa.DebugRef:
+			case *ssa.Store:
+				if r.Addr != fv {
+					return false
+				}
+			default:
+				return false
+			}
+		}
+	}
+	if mc.Referrers() == nil {
+		return false
+	}
+	for _, r := range *mc.Referrers() {
+		switch r := r.(type) {
+		case *ssa.DebugRef:
+		case *ssa.Call:
+			if r.Call.Value == mc {
+				continue
+			}
+			sc := r.Call.StaticCallee()
+			if sc == nil {
+				return false
+			}
+			n := canonName(sc)
+			ok := false
+			for _, p := range nonRetaining {
+				if strings.HasPrefix(n, p) {
+					ok = true
+				}
+			}
+			if !ok {
+				return false
+			}
 		default:
 			return false
 		}
@@ -554,8 +615,10 @@ func (fr *Frame) binop(op token.Token, x, y Term, xt types.Type, ins ssa.Instruc
 	return ""
 }
 
-func (fr *Frame) makeIface(x Term, t types.Type) Term {
-	vc := fr.eng.vc
+func (fr *Frame) makeIface(x Term, t types.Type) Term { return fr.eng.makeIface(x, t) }
+
+func (e *Engine) makeIface(x Term, t types.Type) Term {
+	vc := e.vc
 	if _, ok := t.Underlying().(*types.Interface); ok {
 		return x
 	}
